@@ -2743,7 +2743,11 @@ def orbital_equinox2equinox(epoch0, epoch, i0, arg0, lon0):
     else:
         a = sin(i0r) * sin(lon0r - pir)
         b = -sin(etar) * cos(i0r) + cos(etar) * sin(i0r) * cos(lon0r - pir)
-        i1 = asin(sqrt(a*a + b*b))
+        # The cosine of the new inclination gives the right quadrant, so that
+        # retrograde orbits (i > 90 deg) keep being retrograde
+        cosi1 = (cos(i0r) * cos(etar)
+                 + sin(i0r) * sin(etar) * cos(lon0r - pir))
+        i1 = atan2(sqrt(a*a + b*b), cosi1)
         i1 = Angle(i1, radians=True)
         omegapsi = atan2(a, b)
         omegapsi = Angle(omegapsi, radians=True)
